@@ -43,7 +43,7 @@ PROFILES = {
                 flavors=['raw', 'autoref'], nv=(1, 7), steps=(15, 80), alloc_faults=True, alloc_focus='quant'),
     'C04': dict(weights=_w(let=24, apply=18, ite=4, gc=3, swap=3, reorder=1, redo=8, probe=8), probe_second=['let'],
                 flavors=['raw', 'autoref'], nv=(1, 7), steps=(15, 80), alloc_faults=True, alloc_focus='let'),
-    'C05': dict(weights=_w(add_expr=24, to_expr=8, apply=6, quant=1, let=1,
+    'C05': dict(weights=_w(add_expr=24, to_expr=8, apply=6, quant=1, let=1, nest=4,
                            gc=2, swap=3, reorder=1, reject=3),
                 flavors=['raw', 'autoref'], nv=(1, 7), steps=(15, 80),
                 m1_rate=0.2, reject_kinds=['formula_name', 'formula_syntax', 'formula_node'],
@@ -68,7 +68,7 @@ PROFILES = {
                            knobs=1, copy=3, load=3, dump=2, image=5, nest=6, support=3, count=1, pick=1, to_expr=1, sizes=1),
                 flavors=['raw', 'autoref'], nv=(3, 9), steps=(20, 120),
                 dyn=True, m1_rate=0.1),
-    'C10': dict(weights=_w(support=8, count=8, pick=10, apply=8, gc=1, swap=3, reorder=1),
+    'C10': dict(weights=_w(support=8, count=8, pick=10, apply=8, gc=1, swap=3, reorder=1, declare=2, undeclare=3),
                 flavors=['raw', 'autoref'], nv=(1, 6), steps=(15, 70)),
     'C11': dict(weights=_w(copy=16, copy_vars=1, fork=1, apply=8, declare=3, gc=3, swap=5,
                            reorder=1, drop=6),
@@ -78,7 +78,7 @@ PROFILES = {
                            declare=2, gc=2, swap=4, reorder=1, drop=5),
                 flavors=['raw', 'autoref'], nv=(1, 6), steps=(20, 90),
                 m1_rate=0.3, disk_faults=0.5, dyn_rate=0.15, real_disk=dict(quick=0.03, thorough=0.06)),
-    'C13': dict(weights=_w(image=20, apply=10, pairs=4, swap=3, gc=1, reorder=0),
+    'C13': dict(weights=_w(image=20, apply=10, pairs=4, swap=3, gc=1, reorder=0, declare=2, undeclare=3, support=2),
                 flavors=['raw', 'autoref'], nv=(2, 7), steps=(15, 70)),
     'C14': dict(weights=_w(declare=10, declare_many=3, undeclare=10, apply=8, drop=8, gc=6,
                            swap=4, reject=4, var=8),
